@@ -140,6 +140,10 @@ func (c13) Run(c *fw.Case) {
 		`{"data":1}`, `{"data":-1}`, `{"data":[1,"a","b"]}`, `{"data":[1,"a","a"]}`, `{"data":[1,2]}`, `{"x-k":"abc"}`, `{"x-k":"ABC"}`, `{"zzz":1}`,
 		`{"data":1,"children":[{"data":2,"children":[{"data":[1,"q"]}]},{"data":3,"extra":1}]}`, `{"children":[{"children":[{"children":[]}]}]}`,
 		`{"opt":{"a":1,"b":2}}`, `{"opt":{"a":1}}`, `{"opt":{"A":1,"a":1,"b":1}}`, `[]`, `null`,
+		// long arrays under uniqueItems (hash path), with and without duplicates
+		`{"data":[1,"a","b","c","d","e","f","g","h","i","j","k"]}`, `{"data":[1,"a","b","c","d","e","f","g","h","i","j","a"]}`,
+		`{"data":[1,"q","r","s","t","u","v","w","x","y","z","zz","zzz","q"]}`, `{"data":[1,"aa","bb","cc","dd","ee","ff","gg","hh","ii"]}`,
+		`{"children":[{"data":[1,"a","b","c","d","e","f","g","h","i","j","k","l"]},{"data":[1,"a","b","c","d","e","f","g","h","i","i"]}]}`,
 	}
 	var insts []any
 	for _, t := range instTexts {
